@@ -46,6 +46,11 @@ PAIR = ("Pair", ["K", "V"], [("k", "K"), ("w", "V"), ("k2", "K"), ("s", "string"
 CELL = ("Cell", ["E"], [("e", "E"), ("a", "A")], None)
 PBOX = ("PBox", ["T"], [("v", "T"), ("n", "int")], "v")
 PPAIR = ("PPair", ["K", "V"], [("k", "K"), ("w", "V")], "w")
+# members that are NOT public: written only through put_<p>($x) (an untyped parameter, `$this->p = $x` inside the class)
+# and read through get_<p>(); the declared type must be enforced all the same
+SLOT = ("Slot", ["T"], [("cur", "T"), ("lim", "int"), ("v", "T")], None)
+SPAIR = ("SPair", ["K", "V"], [("a", "K"), ("b", "V"), ("w", "V")], None)
+VIS = {("Slot", "cur"): "private", ("Slot", "lim"): "protected", ("SPair", "a"): "protected", ("SPair", "b"): "private"}
 
 
 def norm_cls(c):
@@ -83,12 +88,13 @@ def class_decls(tbl):
             if p == ctor:
                 out.append("  public function __construct(public %s$%s) {}" % ((t + " ") if t else "", p))
             else:
-                out.append("  public %s$%s;" % ((t + " ") if t else "", p))
+                out.append("  %s %s$%s;" % (VIS.get((name, p), "public"), (t + " ") if t else "", p))
         if ctor is None:
             # an untyped constructor argument, so that another instantiation can be created INSIDE the argument list
             out.append("  public $inner;\n  public function __construct($inner = null) { $this->inner = $inner; }")
         for p, t in props:
             out.append("  public function put_%s($x) { $this->%s = $x; return 1; }" % (p, p))
+            out.append("  public function get_%s() { return $this->%s; }" % (p, p))
             out.append("  public function chk_%s(%s$x) { return 1; }" % (p, (t + " ") if t else ""))
         out.append("}")
     return out
@@ -114,6 +120,13 @@ def factories(histories):
 def op_lines(ops, emit, fs):
     """emit(expr) = statement that records the marker expr"""
     out = []
+    cls_of = {}
+    for o in ops:
+        if o[0] in ("new", "newc", "newraw"):
+            cls_of[o[1]] = o[2]
+        elif o[0] == "nest":
+            for v, c_, _ in o[2]:
+                cls_of[v] = c_
     for o in ops:
         if o[0] in ("new", "newc", "newraw"):
             var, cls = o[1], o[2]
@@ -142,6 +155,8 @@ def op_lines(ops, emit, fs):
             out.append('try { %s %s } catch (Throwable $e) { %s }' % (st, " ".join(emit('"N"') for _ in range(n)), " ".join(emit('"X"') for _ in range(n))))
         elif o[0] == "write":
             _, path, var, p, v = o
+            if (cls_of.get(var), p) in VIS:
+                path = "method"          # a non-public member: only the class's own method can write it
             if path == "direct":
                 st = "$o%d->%s = %s;" % (var, p, php_val(v))
             elif path == "method":
@@ -154,7 +169,8 @@ def op_lines(ops, emit, fs):
             out.append('try { $o%d->chk_%s(%s); %s } catch (Throwable $e) { %s }' % (var, p, php_val(v), emit('"A"'), emit('"R"')))
         else:
             _, var, p = o
-            out.append('try { %s } catch (Throwable $e) { %s }' % (emit("tag($o%d->%s)" % (var, p)), emit('"T"')))
+            rd = "$o%d->get_%s()" % (var, p) if (cls_of.get(var), p) in VIS else "$o%d->%s" % (var, p)
+            out.append('try { %s } catch (Throwable $e) { %s }' % (emit("tag(%s)" % rd), emit('"T"')))
     return out
 
 
@@ -402,6 +418,21 @@ def enumerated_nest(tier, rng):
     return cases
 
 
+def enumerated_slot():
+    """Slot<T> (private T $cur, protected int $lim, public T $v) and SPair<K,V>: every ordered pair of instantiations over
+    the four argument types, then every live instance probed (stores go through put_<p>($x), reads through get_<p>())"""
+    cases = []
+    tbl = [SLOT, SPAIR]
+    byn = {c[0]: c for c in tbl}
+    for a in ARGS:
+        for b in ARGS:
+            ops = [("new", 0, "Slot", [a]), ("new", 1, "Slot", [b]), ("new", 2, "SPair", [b, a])]
+            live = [(0, "Slot", [a]), (1, "Slot", [b]), (2, "SPair", [b, a])]
+            ops += probe_all(byn, live, len(cases))
+            cases.append({"tbl": tbl, "ops": ops, "gen": "slot", "factory": len(cases) % 2 == 1})
+    return cases
+
+
 def seeded_ops(rng, tbl, nulls=False):
     byn = {c[0]: c for c in tbl}
     ops, live = [], []
@@ -491,7 +522,7 @@ def seeded_ops(rng, tbl, nulls=False):
     return ops
 
 
-TABLES = [[BOX, PAIR], [PAIR], [BOX, CELL], [PAIR, CELL, BOX], [BOX, PBOX], [PBOX, PPAIR, PAIR], [PPAIR, BOX]]
+TABLES = [[BOX, PAIR], [PAIR], [BOX, CELL], [PAIR, CELL, BOX], [BOX, PBOX], [PBOX, PPAIR, PAIR], [PPAIR, BOX], [SLOT, BOX], [SPAIR, SLOT, PAIR]]
 
 
 def seeded(rng, n):
@@ -626,7 +657,7 @@ def main(ck):
         for c in mcases:
             c["val"] = tuple(c["val"])
     else:
-        cases = enumerated(ck.tier) + enumerated_c(ck.tier, rng) + enumerated_nest(ck.tier, rng) + seeded(rng, 1500 if ck.tier == "quick" else 30000)
+        cases = enumerated(ck.tier) + enumerated_c(ck.tier, rng) + enumerated_nest(ck.tier, rng) + enumerated_slot() + seeded(rng, 1500 if ck.tier == "quick" else 30000)
         mcases = member_cases()
         groups = conc_groups(rng, 60 if ck.tier == "quick" else 1500)
 
